@@ -203,7 +203,18 @@ def check(kind):
     deal.disable()
     try: kinds_kept_disabled = use(make(True)) == use(make(False))
     finally: deal.enable()
+    # satisfied marker contracts nested in each other (the inner function is called for the first time from inside the outer one)
+    @deal.has()
+    def inner(x): return x
+    @deal.has("stdout")
+    def middle(x): return inner(x)
+    @deal.has()
+    def outer(x): return middle(x)
+    token = object()
+    try: nested = outer(token) is token and middle(token) is token and inner(token) is token
+    except BaseException as e: nested = type(e).__name__
     return {
+        "nested_has_transparent": nested,
         "wrapped_other_kind": kinds_kept, "wrapped_other_kind_disabled": kinds_kept_disabled,
         "name": d.__name__ == f.__name__, "qualname": d.__qualname__ == f.__qualname__, "doc": d.__doc__ == f.__doc__,
         "wrapped": d.__wrapped__ is f, "signature": str(inspect.signature(d)) == str(inspect.signature(f)),
